@@ -25,6 +25,7 @@ Cython constructs recognised (anything else -> BuildError -> exit 2, never a VIO
 import atexit
 import ctypes
 import os
+import math
 import re
 import shutil
 import subprocess
@@ -38,7 +39,7 @@ class BuildError(Exception):
 
 
 # --------------------------------------------------------------------------- extern blocks
-_FIELD = re.compile(r'(bint|unsigned|float|int|string|cell_item \*)\s*(\*?\w+)$')
+_FIELD = re.compile(r'(bint|unsigned int|unsigned|float|double|size_t|long|int|string|cell_item \*)\s*(\*?\w+)$')
 
 
 def parse_extern(src):
@@ -98,7 +99,8 @@ def gen_shim(structs, have_hook):
             elif t.endswith('*'):
                 cpp.append(f'void* {sname}_get_{n}(void*p) {{ return (void*)(({sname}*)p)->{n}; }}')
             else:
-                ct = {'bint': 'int', 'unsigned': 'unsigned', 'float': 'float', 'int': 'int'}[t]
+                ct = {'bint': 'int', 'unsigned': 'unsigned', 'unsigned int': 'unsigned', 'float': 'float', 'int': 'int',
+                      'double': 'double', 'size_t': 'unsigned long', 'long': 'long'}[t]
                 cpp.append(f'{ct} {sname}_get_{n}(void*p) {{ return ({ct})(({sname}*)p)->{n}; }}')
                 cpp.append(f'void {sname}_set_{n}(void*p, {ct} v) {{ (({sname}*)p)->{n} = v; }}')
     cpp.append('''
@@ -154,8 +156,9 @@ class Runtime:
                     g.restype = ctypes.c_void_p
                     g.argtypes = [ctypes.c_void_p]
                 else:
-                    ct = {'bint': ctypes.c_int, 'unsigned': ctypes.c_uint, 'float': ctypes.c_float,
-                          'int': ctypes.c_int}[t]
+                    ct = {'bint': ctypes.c_int, 'unsigned': ctypes.c_uint, 'unsigned int': ctypes.c_uint,
+                          'float': ctypes.c_float, 'int': ctypes.c_int, 'double': ctypes.c_double,
+                          'size_t': ctypes.c_ulong, 'long': ctypes.c_long}[t]
                     g.restype = ct
                     g.argtypes = [ctypes.c_void_p]
                     getattr(L, f'{s}_set_{n}').argtypes = [ctypes.c_void_p, ct]
@@ -252,7 +255,7 @@ class Runtime:
                     if not isinstance(v, bytes):
                         raise TypeError('expected bytes, got %s' % type(v).__name__)
                     getattr(L, f'{s._n}_set_{k}')(s._p, v, len(v))
-                elif t == 'unsigned':
+                elif t in ('unsigned', 'unsigned int', 'size_t'):
                     v = int(v)
                     if v < 0:
                         raise OverflowError("can't convert negative value to unsigned int")
@@ -261,7 +264,7 @@ class Runtime:
                     getattr(L, f'{s._n}_set_{k}')(s._p, v)
                 elif t == 'bint':
                     getattr(L, f'{s._n}_set_{k}')(s._p, 1 if v else 0)
-                elif t == 'float':
+                elif t in ('float', 'double'):
                     getattr(L, f'{s._n}_set_{k}')(s._p, float(v))
                 else:
                     getattr(L, f'{s._n}_set_{k}')(s._p, int(v))
@@ -296,6 +299,9 @@ class Runtime:
                 s.p = p
 
             def __getitem__(s, key):
+                return VecRef(s.p, key)
+
+            def at(s, key):         # unordered_map::at (same bounds-checked element access)
                 return VecRef(s.p, key)
 
         class VecRef:
@@ -470,10 +476,29 @@ def split_args(s):
     return [a.strip() for a in out if a.strip()]
 
 
+def _expand_cdef_blocks(lines):
+    """a `cdef:` block inside a function is the same as one `cdef <declaration>` line per member"""
+    out = []
+    i = 0
+    while i < len(lines):
+        m = re.match(r'^(\s*)cdef\s*:\s*(#.*)?$', lines[i])
+        if not m:
+            out.append(lines[i])
+            i += 1
+            continue
+        ind = m.group(1)
+        i += 1
+        while i < len(lines) and (not lines[i].strip() or len(lines[i]) - len(lines[i].lstrip()) > len(ind)):
+            if lines[i].strip() and not lines[i].strip().startswith('#'):
+                out.append(f'{ind}cdef {lines[i].strip()}')
+            i += 1
+    return out
+
+
 def translate(src):
     structs, body = parse_extern(src)
     sigs = {}
-    lines = body.split('\n')
+    lines = _expand_cdef_blocks(body.split('\n'))
     out = []
     i = 0
     buffers = set()
@@ -483,7 +508,13 @@ def translate(src):
         s = re.sub(r'<float\s*\*>\s*(\w+)\.data', r'__rt.floatptr(\1)', s)
         s = re.sub(r'<object>\s*(\w+)', r'__rt.to_object(\1)', s)
         s = re.sub(r'<void\s*\*>\s*(\w+)', r'__rt.to_voidp(\1)', s)
+        if re.search(r'(?<=[\(,\s=])&\w+\s*[\[\.]', s) and not s.lstrip().startswith('#'):
+            # the address of an element / member (a typed C++ pointer the emulation has no proxy for)
+            raise BuildError('address-of an expression other than a plain name: ' + s.strip())
         s = re.sub(r'(?<=[\(,\s])&(\w+)', r'__rt.addr(\1)', s)
+        # `p is NULL` / `p is not NULL`: pointer identity with NULL is pointer equality
+        s = re.sub(r'\bis\s+not\s+NULL\b', '!= NULL', s)
+        s = re.sub(r'\bis\s+NULL\b', '== NULL', s)
         # scalar casts of a name / attribute / simple call: <unsigned>x, <int>len(y), <float>a.b, <bint>f
         s = re.sub(r'<\s*(unsigned(?:\s+int)?|size_t|Py_ssize_t)\s*>\s*([\w\.]+(?:\([^()]*\))?)', r'__rt.to_unsigned(\2)', s)
         s = re.sub(r'<\s*(int|long)\s*>\s*([\w\.]+(?:\([^()]*\))?)', r'int(\2)', s)
@@ -635,7 +666,14 @@ def build(repo, sanitize=False):
     with open(cpp, 'w') as f:
         f.write(gen_shim(structs, have_hook))
     so = os.path.join(builddir, 'libshim.so')
-    cmd = ['g++', '-O2', '-std=c++11', '-shared', '-fPIC', '-I' + repo, cpp, '-o', so]
+    std = '-std=c++11'
+    try:
+        m_std = re.search(r'-std=(c\+\+\w+|gnu\+\+\w+)', open(os.path.join(repo, 'setup.py')).read())
+        if m_std:
+            std = '-std=' + m_std.group(1)      # the standard the package itself is built with
+    except OSError:
+        pass
+    cmd = ['g++', '-O2', std, '-shared', '-fPIC', '-I' + repo, cpp, '-o', so]
     if sanitize:
         cmd[1:2] = ['-O1', '-g', '-fsanitize=address,undefined', '-fno-omit-frame-pointer']
     r = subprocess.run(cmd, capture_output=True, text=True)
@@ -644,6 +682,8 @@ def build(repo, sanitize=False):
     lib = ctypes.CDLL(so)
     rt = Runtime(lib, structs, sigs, have_hook)
     mod = types.ModuleType('depccg._parsing')
+    mod.__dict__.update({'INFINITY': float('inf'), 'HUGE_VAL': float('inf'), 'NAN': float('nan'),
+                         'INT_MAX': 0x7FFFFFFF, 'exp': math.exp, 'log': math.log, 'sqrt': math.sqrt, 'fabs': abs})
     mod.__dict__.update({'__rt': rt, 'NULL': rt.NULL, 'UINT_MAX': 0xFFFFFFFF, 'parse_sentence': rt.parse_sentence,
                          'deref': lambda p: p[0]})
     pyfile = os.path.join(builddir, '_parsing_translated.py')
